@@ -193,7 +193,11 @@ def main(prop, argv=None):
     if args.replay:
         return do_replay(prop, args.replay)
     if args.digest_jobs:
-        return digest_jobs(prop, json.loads(args.digest_jobs))
+        spec = args.digest_jobs
+        if spec.startswith("@"):  # job list in a file (too long for an argument)
+            with open(spec[1:]) as fh:
+                spec = fh.read()
+        return digest_jobs(prop, json.loads(spec))
 
     tier = args.tier if args.tier in ("quick", "thorough") else "quick"
     seed = verif_seed()
